@@ -557,6 +557,7 @@ func ParseURI(uri SIPStr, puri *PsipURI) (ErrorURI, int) {
 					puri.Host.Reset()
 					puri.Port.Reset()
 					puri.PortNo = 0
+					portNo = 0
 					puri.Params.Reset()
 					puri.Headers.Reset()
 				} else {
@@ -618,6 +619,7 @@ func ParseURI(uri SIPStr, puri *PsipURI) (ErrorURI, int) {
 					puri.Host.Reset()
 					puri.Port.Reset()
 					puri.PortNo = 0
+					portNo = 0
 					puri.Params.Reset()
 					puri.Headers.Reset()
 				} else {
